@@ -40,6 +40,10 @@ def plan(tier, seed):
     # entry instants that are not multiples of 0.01 (trace output rounds to two decimals), with and without debug
     cfgs.append(dict(kind="wire", loss=None, N=n - 1, gaps=["S", 0.125, 1.375], order=0))
     cfgs.append(dict(kind="wire", loss=None, N=n - 1, gaps=["S", 0.125, 1.375], order=0, debug=1))
+    # a nanosecond time axis (delays far below a microsecond); empty packets (pure signalling) are packets
+    cfgs.append(dict(kind="wire", loss=None, N=n - 1, gaps=["S", 1, 2], order=0, scale=2.0 ** -30))
+    cfgs.append(dict(kind="wire", loss=0.5, N=n - 2, gaps=["S", 1, 2], order=0, sizes=[0, 1]))
+    cfgs.append(dict(kind="wire", loss=None, N=n - 1, gaps=["S", 1], order=0, sizes=[0, 1]))
     for loss in (None, 0.5):
         cfgs.append(dict(kind="cable", loss=loss, N=n - 1 if loss is None else n - 2, gaps=["S", 1, 2], order=0))
     # every configuration once more with long fixed workloads (state that only breaks after hundreds of packets)
@@ -57,7 +61,7 @@ def execute(ch, cfg):
     calls = []          # ('D'|'U', time, value)
 
     def delay_dist():
-        d = DELAYS[ch.choose(len(DELAYS), lambda c: "delay draw %d" % DELAYS[c])]
+        d = DELAYS[ch.choose(len(DELAYS), lambda c: "delay draw %d" % DELAYS[c])] * cfg.get("scale", 1)
         calls.append(("D", env.now, d))
         return d
 
@@ -66,7 +70,7 @@ def execute(ch, cfg):
         calls.append(("U", env.now, v))
         return v
     ndir = 1 if cfg["kind"] == "wire" else 2
-    items = N.menu(cfg["gaps"], list(range(2 if cfg.get("twoflows") else ndir)), [1])
+    items = N.menu(cfg["gaps"], list(range(2 if cfg.get("twoflows") else ndir)), cfg.get("sizes", [1]))
     ends = []
 
     class Front:
@@ -123,11 +127,11 @@ def execute(ch, cfg):
             ends_ok.append(d1.out is not None and d2.out is not None and d1.out is not d2.out)
     ends_ok = []
     if cfg.get("order", 0) == 0:
-        env.process(net.driver(ch, cfg["N"], items, Front()))
+        env.process(net.driver(ch, cfg["N"], items, Front(), scale=cfg.get("scale", 1)))
         mk()
     else:
         mk()
-        env.process(net.driver(ch, cfg["N"], items, Front()))
+        env.process(net.driver(ch, cfg["N"], items, Front(), scale=cfg.get("scale", 1)))
     saved = random.uniform
     saved_random = random.random
     random.uniform = fake_uniform
